@@ -90,7 +90,11 @@ def compare_twin(base, twin, scale, oa, ob, exactish, cnt):
             cnt["rounded_twin_acceptance_artefacts(skipped)"] += 1
             return v
         residue = (not exactish) or lc.nonterminating_split(base)
-        sig = "acceptance-differs" + (":decimal-residue" if residue and "exceeds holding" in msg else "")
+        sig = "acceptance-differs"
+        if residue and "exceeds holding" in msg:
+            from .c05 import residue_excuse
+            refused, emsg = (base, ea) if "exceeds holding" in ea else (twin, eb)
+            sig += ":decimal-residue:" + residue_excuse(refused, emsg)
         v.append({"clause": "acceptance-differs", "signature": sig,
                   "detail": f"with split lines: {ea[:150]} | rewritten in post-split units: {eb[:150]}"})
         return v
